@@ -157,7 +157,9 @@ def r1_canonical_discipline(chk, F):
             fid = t["f"].get("fn_id")
             if fid is not None:
                 callers.setdefault(fid, set()).add(g["id"])
-    norm_cone = {g["id"] for g in allf if g["path"].endswith("duration::Duration::normalize")}
+    # (from_parts is the normalising constructor itself: whether what it returns is canonical for every input - including through a
+    # fast path that skips normalize() when the nanoseconds already are below one century - is decided by interpreting it, R3)
+    norm_cone = {g["id"] for g in allf if g["path"].endswith("duration::Duration::normalize") or g["path"].endswith("duration::Duration::from_parts")}
     for _ in range(4):
         for g in allf:
             cs = callers.get(g["id"])
